@@ -1040,3 +1040,43 @@ def sweep_c02():
                 fid = [f for f in trees if trees[f] != base[f]][0]
                 bad.append({'what': 'layout #%d (%r between all tokens) changes the tree of %s' % (gi, gap, fid), 'hint': 'layout'})
     return n, bad
+
+
+def sweep_doc_text():
+    """structure of the documentation text: paragraphs, lines, tags; LF and CRLF; decorated and undecorated lines.
+    Expected text written from the statement: lines of a paragraph joined by single spaces, paragraphs and @tag clauses separated by newlines."""
+    n, bad = 0, []
+    docs = [
+        ([['Title']], []),
+        ([['First line', 'second line']], []),
+        ([['Title'], ['Première partie', 'suite'], ['Dernière 部分 🎉']], []),
+        ([['Summary line', 'goes on'], ['Details']], ['@param a the a', '@return nothing']),
+        ([['Only']], ['@deprecated use other']),
+    ]
+    files, want = {}, {}
+    k = 0
+    for eol in ('\n', '\r\n'):
+        for deco in (' * ', '   ', '\t* '):
+            for paras, tags in docs:
+                k += 1
+                lines = []
+                for pi, p in enumerate(paras):
+                    if pi:
+                        lines.append('')
+                    lines += p
+                lines += tags
+                body = eol.join((deco + l).rstrip(' ') if l else deco.rstrip(' ') for l in lines)
+                text = 'package p;' + eol + '/**' + eol + body + eol + ' */' + eol + 'interface I%d { }' % k + eol
+                fid = 'd%03d.aidl' % k
+                files[fid] = text
+                want[fid] = '\n'.join([' '.join(p) for p in paras] + tags)
+    r = replay.project(files)
+    if 'files' not in r:
+        return 0, [{'what': 'replay failed: %s' % str(r)[:200]}]
+    for fid, w in want.items():
+        n += 1
+        a = r['files'][fid]['parse']['ast']
+        got = a['item']['doc'] if a else None
+        if got != w:
+            bad.append({'file': fid, 'text': files[fid], 'what': 'documentation is %r, expected %r' % (got, w)})
+    return n, bad
